@@ -247,6 +247,12 @@ func (rn *runner) one(raw json.RawMessage, r *core.Rand) {
 		var c apiCase
 		json.Unmarshal(raw, &c)
 		runAPI(rn.ctx, &c)
+	case "hist":
+		var c histCase
+		if json.Unmarshal(raw, &c) != nil {
+			core.Fatalf("C07: bad hist case")
+		}
+		runHistory(rn.ctx, rn.f, &c, r)
 	default:
 		core.Fatalf("C07: unknown case kind %q", k.Kind)
 	}
@@ -263,8 +269,13 @@ func Run(ctx *core.Ctx) {
 		"(domains) CONNECT under 16 mitm-domains lists (anchored / unanchored / case-insensitive include and exclude rules over names and IP literals, rules whose " +
 		"verdict on host:port differs from that on the host) to included, excluded and unlisted hosts (names in lower / upper / mixed / random case, IPv4, bracketed IPv6) " +
 		"on ports 443 / 8443 / 80 / other — every list × port class × host spelling every run, more drawn with random ports and spellings; (api) the GetCertificate callback of TLSForHost and " +
-		"net.SplitHostPort / net.ParseIP / URL.Hostname on well-formed and malformed authority and SNI strings; distinct = distinct (configuration, authority, SNI, phase) " +
-		"resp. (configuration, addressing, origin kind, port, header) resp. (configuration, host spelling, port) resp. strings")
+		"net.SplitHostPort / net.ParseIP / URL.Hostname on well-formed and malformed authority and SNI strings; (hist) histories of 3-8 events (swept: 20-40) on ONE fresh proxy " +
+		"behind no / an http / an https / a socks5 upstream proxy, mitm-domains excluding the tunnel hosts: CONNECTs to excluded hosts (tunnelled through the upstream), requests in intercepted " +
+		"sessions and plain GET https:// to 19 scripted origins (valid, expired, untrusted, wrong name, certificate valid for an upstream proxy's name / a tunnel host / another origin; DNS names, " +
+		"IPv4, IPv6) on drawn ports, every origin closing after each response, in drawn orders and swept as tunnel-first and origins-tunnel-origins for every upstream kind; each event's verdict and the SNI " +
+		"the origin saw are compared with Model.C07.runHist and with the same event alone on a fresh instance; a history event is non-trivial when something happened on the instance before it; " +
+		"distinct = distinct (configuration, authority, SNI, phase) " +
+		"resp. (configuration, addressing, origin kind, port, header) resp. (configuration, host spelling, port) resp. strings resp. (configuration, event kind, host, how many tunnels / verifications before: 0, 1, 2+)")
 	ctx.Assume("crypto is not modelled: x509 verification is an abstract predicate in the Lean model (hypothesis FreshVerifies of the theorems); " +
 		"the run checks the real certificates with crypto/x509 as an independent verifier")
 	corpus := core.LoadCorpus(ctx.Root, "C07")
@@ -325,6 +336,20 @@ func Run(ctx *core.Ctx) {
 		light = append(light, job{enc(c), r})
 	}
 
+	// histories: each has its own proxy, events in order
+	var hists []job
+	for _, c := range sweepHist(ctx.Rng.Sub()) {
+		hists = append(hists, job{enc(c), ctx.Rng.Sub()})
+	}
+	for i, n := 0, ctx.N(60, 900); i < n; i++ {
+		r := ctx.Rng.Sub()
+		c := genHist(r)
+		if i < 1 {
+			ctx.Sample(c)
+		}
+		hists = append(hists, job{enc(c), r})
+	}
+
 	rn := newRunner(ctx, spellings)
 	defer rn.close()
 	for _, c := range corpus {
@@ -353,6 +378,7 @@ func Run(ctx *core.Ctx) {
 	}
 	work(ctx.N(10, 12), batches)
 	work(6, light)
+	work(4, hists)
 	wg.Wait()
 }
 
